@@ -26,7 +26,7 @@ RULE = ('[line-granular preemption, oracle only: 6 victim/intruder pairs (poll a
         'interpreted; NO_CHANGE carrying stray data; answer of a type outside the enum; response whose conversion '
         'raises; stub raising; garbage instead of a response), register / unregister, and the apply tasks scheduled explicitly: whole tasks in any order, or '
         'split into their four regions with other ops in between (any number of tasks parked in front of the lock), ~12% of cases with a second task started '
-        'while the lock is held (must block); usually drained at the end in a random order. Timer cases (1 in 16): '
+        'while the lock is held (must block); usually drained at the end in a random order. Timer cases (1 in 10; failing polls raise a connection error with a message, one without arguments, KeyError(), a grpc.RpcError subclass without arguments, an exception whose str() raises, an OSError, or the stub returns garbage): '
         'LongPoll.start() with POLL_TIMER 0.01 as float or as text, script of 2..6 polls with failures first. '
         'Non-trivial = two or more updates/registrations were in flight together and ran in an order other than '
         'submission order, or a poll failed/was malformed after a configuration was installed. Distinct = distinct '
@@ -169,7 +169,7 @@ def gen(rng, tier):
     k = 0
     while True:
         k += 1
-        if k % 16 == 0:
+        if k % 10 == 0:
             yield gen_timer(rng)
         elif k % 50 == 7:
             yield race_case(rng)
@@ -252,6 +252,12 @@ def corpus():
                                 {'op': 'poll', 'nc': True, 'rt': 0, 'ts': 3, 'hash': 'stray', 'tps': []},
                                 {'op': 'pollFail', 'base': False, 'how': 'garbage'},
                                 {'op': 'poll', 'nc': False, 'rt': 5, 'ts': 4, 'hash': '', 'tps': []}]},
+        # failing polls whose exception has no arguments / cannot be rendered, then a good one
+        {'kind': 'timer', 'interval': 0.01, 'script': [{'op': 'pollFail', 'base': False, 'how': 'noargs'},
+                                                       {'op': 'pollFail', 'base': False, 'how': 'rpc_noargs'},
+                                                       {'op': 'pollFail', 'base': False, 'how': 'badstr'},
+                                                       {'op': 'pollFail', 'base': False, 'how': 'keyerror'},
+                                                       _upd('h1', 1, ('a.py', 1, 's1'))]},
         # D23: text interval
         {'kind': 'timer', 'interval': '0.01', 'script': [{'op': 'pollFail', 'base': False, 'how': 'rpc'},
                                                          _upd('h1', 1, ('a.py', 1, 's1'))]},
@@ -272,7 +278,7 @@ class ScriptChannel(svcbench.FakeChannel):
             return ('resp', svcbench.make_response(op))
         if op.get('how') == 'garbage':
             return ('resp', None)
-        return ('raise', svcbench.RpcFailure('unavailable'))
+        return ('raise', svcbench.poll_failure(op.get('how')))
 
 
 def run_timer(case):
@@ -343,7 +349,7 @@ def oracle_seq(case, obs):
             if k == 'poll' and op.get('rt', 1) == 0 and 'poll_raised' in t:
                 v.append(f'{what}: NO_CHANGE answer made poll raise {t["poll_raised"]}')
             if k == 'poll' and 'poll_raised' in t and t['poll_raised'] not in ('ValueError', 'AttributeError',
-                                                                               'RpcFailure', 'TypeError'):
+                                                                               'TypeError'):
                 v.append(f'{what}: poll died of {t["poll_raised"]}, which the timer loop does not survive')
         if 'raised' in t or 'task_raised' in t:
             v.append(f'{what}: raised {t.get("raised") or t.get("task_raised")}')
